@@ -1,6 +1,6 @@
 (* C05 -- lemmas stated exactly as the theorems of Props/Properties_C05.v whose
    proofs need a few steps of glue (the Props file only contains `exact`). *)
-From Coq Require Import ZArith NArith QArith Reals List Bool.
+From Coq Require Import ZArith NArith QArith Reals List Bool Lia.
 From Flocq Require Import IEEE754.BinarySingleNaN.
 From VV Require Import Lambda.LambdaDefs Lambda.LambdaFloat.
 From VV Require Import Base.F64 Eval.EvalDefs Eval.EvalProofs Eval.EvalExactProofs Eval.EvalFloatProofs Eval.EvalMeanProofs
@@ -144,4 +144,25 @@ Proof.
   destruct (soe_loop_x throws errf step 0 d (F64.zero, F64.zero)) as [d' [st|]]; cbn [fst snd] in *.
   - split; [exact F|discriminate].
   - split; [exact F|]. intros _. apply W. reflexivity.
+Qed.
+
+(* ---- test_evaluator<T>, type `distinct`: time invariant ------------------- *)
+Lemma find_index_app_none : forall (prog : Type) (eqb : prog -> prog -> bool) buf p i,
+  find_index prog eqb buf p i = None -> eqb p p = true ->
+  find_index prog eqb (buf ++ [p]) p i = Some (i + Z.of_nat (length buf)).
+Proof.
+  intros prog eqb buf p. induction buf as [|x r IH]; intros i H R; cbn [find_index app length] in *.
+  - rewrite R. f_equal. cbn. lia.
+  - destruct (eqb x p); [discriminate H|]. rewrite (IH (i + 1) H R). f_equal. rewrite Nat2Z.inj_succ. lia.
+Qed.
+
+Lemma P_test_distinct_time_invariant : forall (prog : Type) (eqb : prog -> prog -> bool) buf p,
+  eqb p p = true ->
+  test_distinct prog eqb (fst (test_distinct prog eqb buf p)) p =
+  (fst (test_distinct prog eqb buf p), snd (test_distinct prog eqb buf p)).
+Proof.
+  intros prog eqb buf p R. unfold test_distinct at 2 3 4.
+  destruct (find_index prog eqb buf p 0) as [i|] eqn:F; cbn [fst snd].
+  - unfold test_distinct. rewrite F. reflexivity.
+  - unfold test_distinct. rewrite (find_index_app_none prog eqb buf p 0 F R). rewrite Z.add_0_l. reflexivity.
 Qed.
